@@ -5,6 +5,7 @@ from ..frontend import AnalysisError, src, walk_no_nested
 from ..symx import run_paths
 from ..lin import Form, Lin
 from ..cfg import CFG
+from ..generic import guarded_refill_needs_empty
 
 MANIFEST = {
     'technique': 'symbolic linear forms of the reaction update statements; must-follow rule (rescale after every stoichiometry/reactant store); CFG must-pass rules for write-back and feasibility gate; sign provenance in the parsers',
@@ -51,6 +52,9 @@ def run(ctx):
     update_forms(ctx, d1)
     rescale_rule(ctx, d2)
     basis_rule(ctx, d3)
+    # the configuration switch (stream on another property package) re-indexes the flow data twice through reset_chemicals
+    for cname in ('ChemicalIndexer', 'MaterialIndexer'):
+        guarded_refill_needs_empty(prog, prog.method(cname, 'reset_chemicals', rel='thermosteam/indexer.py'), d3)
     parser_rule(ctx, d4)
     feasibility_rule(ctx, d5)
 
